@@ -22,10 +22,14 @@ EXTENDS Integers, Sequences, FiniteSets, TLC, Json
 CONSTANTS MaxBlocks, Hs, Rich,   \* Rich: TRUE adds left/right forced breaks and a distinct first-page height
           NthAll               \* TRUE: every @page :nth(An+B) selector of the bounded family, FALSE: :nth(2n+1) only
 
-VARIABLES doc, H, Hfirst, nth, resume, right, pages, placed, pending, phase
-vars == <<doc, H, Hfirst, nth, resume, right, pages, placed, pending, phase>>
+VARIABLES doc, rtl, H, Hfirst, nth, resume, right, pages, placed, pending, phase
+vars == <<doc, rtl, H, Hfirst, nth, resume, right, pages, placed, pending, phase>>
 
-BVafter == IF Rich THEN {"auto", "avoid", "page", "left", "right"} ELSE {"auto", "avoid", "page"}
+\* rtl: the direction of the root element is right-to-left: the first page is a left page and recto means left (CSS
+\* Fragmentation 3, 3.1: recto / verso depend on the page progression)
+BVafter == IF Rich THEN {"auto", "avoid", "page", "left", "right", "recto", "verso"} ELSE {"auto", "avoid", "page"}
+SideVals == {"left", "right", "recto", "verso"}
+SideOf(v, r) == CASE v = "recto" -> (IF r THEN "left" ELSE "right") [] v = "verso" -> (IF r THEN "right" ELSE "left") [] OTHER -> v
 \* pg: the `page` property of the paragraph (0: auto, 1: the page named "n", 2: the page named "m"). A paragraph that names
 \* a page other than the one its previous sibling names starts a new page (CSS Paged Media 3, 6.2). As in WeasyPrint (and in
 \* the repository's TestPageNames4) `auto` stays on the page it is on: going from a named paragraph to an auto one is no break.
@@ -37,13 +41,13 @@ N(d) == SumLines(d, Len(d))
 StartOf(d, b) == SumLines(d, b - 1) + 1
 EndOf(d, b)   == SumLines(d, b)
 BlockOf(d, i) == CHOOSE b \in 1..Len(d) : StartOf(d, b) <= i /\ i <= EndOf(d, b)
-Forcing(v)    == v \in {"page", "left", "right"}
+Forcing(v)    == v \in {"page"} \cup SideVals
 \* value of the break opportunity after line p (CSS Fragmentation 3.1: the values of all boxes meeting there)
 Combined(d, p) ==
   LET b == BlockOf(d, p) IN
   IF p < EndOf(d, b) THEN "inside"
   ELSE LET a == d[b].ba  c == d[b + 1].bb IN
-       IF c \in {"left", "right"} THEN c ELSE IF a \in {"left", "right"} THEN a
+       IF c \in SideVals THEN c ELSE IF a \in SideVals THEN a
        ELSE IF a = "page" \/ c = "page" \/ (d[b + 1].pg # 0 /\ d[b].pg # d[b + 1].pg) THEN "page"
        ELSE IF a = "avoid" \/ c = "avoid" THEN "avoid" ELSE "auto"
 \* orphans / widows of the fragment of block b that ends the page at p, the page starting at s
@@ -107,35 +111,35 @@ WhyNot(d, h, s, e) ==
 NthSet == IF NthAll THEN [a : (-2)..3, b : (-1)..5] ELSE {[a |-> 2, b |-> 1]}
 NthMatch(sel, i) == \E n \in 0..(i + 6) : sel.a * n + sel.b = i
 Docs(n) == UNION {[1..m -> Blk] : m \in 1..n}
-Init == /\ doc \in Docs(MaxBlocks) /\ H \in Hs /\ Hfirst \in (IF Rich THEN Hs \cup {0} ELSE {0}) /\ nth \in NthSet
-        /\ resume = 1 /\ right = TRUE /\ pages = <<>> /\ placed = <<>> /\ pending = "auto" /\ phase = "paginate"
+Init == /\ doc \in Docs(MaxBlocks) /\ rtl \in (IF Rich THEN BOOLEAN ELSE {FALSE}) /\ H \in Hs /\ Hfirst \in (IF Rich THEN Hs \cup {0} ELSE {0}) /\ nth \in NthSet
+        /\ resume = 1 /\ right = ~rtl /\ pages = <<>> /\ placed = <<>> /\ pending = "auto" /\ phase = "paginate"
 \* (Hfirst = 0 means: no @page :first rule, the first page is like the others)
 Cap(i) == IF i = 1 /\ Hfirst # 0 THEN Hfirst ELSE H
 
 \* a forced break asked for a side that the next page does not have: one blank page
 InsertBlank == /\ phase = "paginate" /\ resume <= N(doc)
-               /\ (pending = "left" /\ right) \/ (pending = "right" /\ ~right)
+               /\ (SideOf(pending, rtl) = "left" /\ right) \/ (SideOf(pending, rtl) = "right" /\ ~right)
                /\ pages' = Append(pages, [lines |-> <<>>, right |-> right, blank |-> TRUE])
                /\ right' = ~right /\ pending' = "auto"
-               /\ UNCHANGED <<doc, H, Hfirst, nth, resume, placed, phase>>
+               /\ UNCHANGED <<doc, rtl, H, Hfirst, nth, resume, placed, phase>>
 RemakePage == /\ phase = "paginate" /\ resume <= N(doc)
-              /\ ~((pending = "left" /\ right) \/ (pending = "right" /\ ~right))
+              /\ ~((SideOf(pending, rtl) = "left" /\ right) \/ (SideOf(pending, rtl) = "right" /\ ~right))
               /\ LET e == PageEnd(doc, Cap(Len(pages) + 1), resume) IN
                  /\ pages' = Append(pages, [lines |-> [j \in 1..(e - resume + 1) |-> resume + j - 1], right |-> right, blank |-> FALSE])
                  /\ placed' = placed \o [j \in 1..(e - resume + 1) |-> resume + j - 1]
                  /\ pending' = IF e < N(doc) THEN Combined(doc, e) ELSE "auto"
                  /\ resume' = e + 1
               /\ right' = ~right
-              /\ UNCHANGED <<doc, H, Hfirst, nth, phase>>
+              /\ UNCHANGED <<doc, rtl, H, Hfirst, nth, phase>>
 Finish == /\ phase = "paginate" /\ resume > N(doc) /\ phase' = "done"
-          /\ UNCHANGED <<doc, H, Hfirst, nth, resume, right, pages, placed, pending>>
+          /\ UNCHANGED <<doc, rtl, H, Hfirst, nth, resume, right, pages, placed, pending>>
 \* building the document one paragraph at a time (simulation of larger documents: INIT InitBuild)
-InitBuild == /\ doc = <<>> /\ H \in Hs /\ Hfirst \in (IF Rich THEN Hs \cup {0} ELSE {0}) /\ nth \in NthSet
-             /\ resume = 1 /\ right = TRUE /\ pages = <<>> /\ placed = <<>> /\ pending = "auto" /\ phase = "build"
+InitBuild == /\ doc = <<>> /\ rtl \in (IF Rich THEN BOOLEAN ELSE {FALSE}) /\ H \in Hs /\ Hfirst \in (IF Rich THEN Hs \cup {0} ELSE {0}) /\ nth \in NthSet
+             /\ resume = 1 /\ right = ~rtl /\ pages = <<>> /\ placed = <<>> /\ pending = "auto" /\ phase = "build"
 AddBlock == /\ phase = "build" /\ Len(doc) < MaxBlocks /\ \E b \in Blk : doc' = Append(doc, b)
-            /\ UNCHANGED <<H, Hfirst, nth, resume, right, pages, placed, pending, phase>>
+            /\ UNCHANGED <<rtl, H, Hfirst, nth, resume, right, pages, placed, pending, phase>>
 EndBuild == /\ phase = "build" /\ Len(doc) = MaxBlocks /\ phase' = "paginate"
-            /\ UNCHANGED <<doc, H, Hfirst, nth, resume, right, pages, placed, pending>>
+            /\ UNCHANGED <<doc, rtl, H, Hfirst, nth, resume, right, pages, placed, pending>>
 Next == AddBlock \/ EndBuild \/ InsertBlank \/ RemakePage \/ Finish
 Spec == Init /\ [][Next]_vars /\ WF_vars(Next)
 SpecBuild == InitBuild /\ [][Next]_vars /\ WF_vars(Next)
@@ -153,13 +157,15 @@ Complete == phase = "done" => placed = [j \in 1..N(doc) |-> j]
 \* the page after a left/right forced break has the requested side
 SideHonoured == \A i \in 1..Len(pages) - 1 :
    (~pages[i].blank /\ pages[i].lines # <<>> /\ pages[i].lines[Len(pages[i].lines)] < N(doc)) =>
-     LET v == Combined(doc, pages[i].lines[Len(pages[i].lines)])
+     LET v == SideOf(Combined(doc, pages[i].lines[Len(pages[i].lines)]), rtl)
          nxt == IF pages[i + 1].blank /\ i + 2 <= Len(pages) THEN pages[i + 2] ELSE pages[i + 1] IN
      (v = "left" /\ ~nxt.blank => ~nxt.right) /\ (v = "right" /\ ~nxt.blank => nxt.right)
 \* a page never holds more lines than its capacity, unless it holds a single line (an unbreakable unit)
 FitsPage == \A i \in 1..Len(pages) : Len(pages[i].lines) <= 1 \/ Len(pages[i].lines) <= Cap(i)
 Terminates == <>(phase = "done")
 
-Emit == phase = "done" => PrintT(ToJson([doc |-> doc, H |-> H, Hfirst |-> Hfirst, nth |-> nth, pages |-> pages,
+\* the sides alternate, starting with a right page (a left page in a right-to-left document)
+SidesAlternate == \A i \in 1..Len(pages) : pages[i].right = ((i % 2 = 1) # rtl)
+Emit == phase = "done" => PrintT(ToJson([doc |-> doc, rtl |-> rtl, H |-> H, Hfirst |-> Hfirst, nth |-> nth, pages |-> pages,
                                          nthpages |-> [k \in 1..Len(pages) |-> NthMatch(nth, k)]]))
 =============================================================================
